@@ -292,7 +292,7 @@ class C07(PropBase):
                 "consistency, rest == \"1\", field mapping) equals the record constructor and C09's byte-level recogniser (c07_line_source); the two usual MSVC frame-data programs "
                 "evaluated symbolically for all environments (c07_standard_programs); every well-formed x86 stack of any depth through any mix of FPO and frame-data (.raSearch "
                 "program) records is walked to exactly its chain (c07_win_recovers_chain). "
-                "Whole walks through all three kinds of record in one stack: c07_win_recovers_chain_bp; win_walk is compared with the real walk_stack on generated stacks (front-end G). "
+                "Whole walks through all three kinds of record in one stack: c07_win_recovers_chain_bp; through standard ebp frames: c07_ebp_recovers_chain; one step of these walks is SymbolFile::walk_frame (c07_walk_step_is_walk_frame); win_walk is compared with the real walk_stack on generated stacks (front-end G). "
                 "Only the token sequence and the presence of '@' in the program text matter: c07_program_text_dependence. "
                 "Model tied to the code by exhaustive programs to length 4, extreme size fields, overlapping record sets, through a mock FrameWalker, "
                 "through x86 walk_stack from a context frame and from frame lists, debug and release; an independent Python reference judges "
